@@ -25,7 +25,7 @@ def parse_case(case):
     ops, written = [], 0
     for tok in t[1:]:
         k, a = tok[0], tok[1:]
-        if k == "w":
+        if k in "wo":     # o = Buffer.ReadOnce from a reader delivering the payload: must behave as Write
             n = int(a)
             ops.append(("w", bytes(pat(written + i) for i in range(n))))
             written += n
@@ -206,7 +206,9 @@ def _stats(case, model):
             STATS["%s:read-%s" % (kind, "empty" if o["ret"] in ("N", "R0:", "R0::EOF", "R0::E") else "data")] += 1
         elif k == "t":
             STATS["%s:tidy-%s" % (kind, "moves" if prev["p"] > 0 else "noop")] += 1
-        elif k in "wg" and kind == "B":
+        elif k in "wgo" and kind == "B":
+            if k == "o":
+                STATS["B:write-via-ReadOnce"] += 1
             if cur["c"] != prev["c"]:
                 br = "make64" if (prev["c"] == 0 and cur["c"] == 64) else "reallocate"
             elif prev["p"] > 0 and cur["p"] == 0:
@@ -227,7 +229,7 @@ def nontrivial(case, model):
         return False
     seen = False
     for tok, line in zip(t, split_trace(model)):
-        if tok[0] in "st" or (tok[0] in "wg" and " p=0" in line):
+        if tok[0] in "st" or (tok[0] in "wgo" and " p=0" in line):
             seen = True
         if seen and tok[0] in "rn" and (line.startswith("R") and not line.startswith("R0:") or line.startswith("N") and not line.startswith("N ")):
             return True
@@ -285,7 +287,13 @@ def gen_stream_random(rng, count):
     return out
 
 
-B_ALPHA = ["w0", "w1", "w3", "w40", "r0", "r1", "r3", "n1", "n3", "n50", "s0:0", "s0:2", "s1:-1", "s1:1", "s2:0", "s2:-2",
+def via_readonce(rng, toks):
+    """about a third of the writes of a random Buffer case go through Buffer.ReadOnce (token o<n>): the
+    second entry point into Write must behave exactly as Write"""
+    return [("o" + t[1:]) if t[0] == "w" and rng.below(3) == 0 else t for t in toks]
+
+
+B_ALPHA = ["w0", "w1", "w3", "w40", "o1", "o40", "r0", "r1", "r3", "n1", "n3", "n50", "s0:0", "s0:2", "s1:-1", "s1:1", "s2:0", "s2:-2",
            "s0:5", "s3:0", "t", "z", "g0", "g1", "g70"]
 
 
@@ -365,7 +373,7 @@ def gen_buffer_random(rng, count):
                 l0 = sim.l
                 sim.grow(k)
                 sim.l = sim.l - k
-        out.append("c13B " + " ".join(toks))
+        out.append("c13B " + " ".join(via_readonce(rng, toks)))
     return out
 
 
@@ -414,7 +422,7 @@ def gen_buffer_scenarios(rng, count):
         toks.append("s0:0")
         toks.append("r%d" % rng.choice([sim.l + 1, sim.l, max(0, sim.l - 1)]))
         toks.append("r1")
-        out.append("c13B " + " ".join(toks))
+        out.append("c13B " + " ".join(via_readonce(rng, toks)))
     return out
 
 
@@ -426,7 +434,7 @@ def gen_malformed(rng, count):
         toks = [rng.choice(B_ALPHA) for _ in range(rng.range(0, 5))]
         toks.append(rng.choice(["n-1", "g-1", "n-70", "g-9223372036854775808", "n-9223372036854775808"]))
         toks += [rng.choice(B_ALPHA) for _ in range(rng.range(0, 2))]
-        out.append("c13B " + " ".join(toks))
+        out.append("c13B " + " ".join(via_readonce(rng, toks)))
     return out
 
 
